@@ -883,6 +883,20 @@ static void r_op(vh_rng *r)
 			if (dec < 0) acct_add(&s->own[d], 0, -dec);
 			desc("dec%d%c(%lld);", s->id, d ? 'w' : 'r', (long long)dec); hmix(200 + s->id * 2 + d, (uint64_t)dec);
 			vh_stat(dec < 0 ? "manual_refills" : "manual_decrements");
+			if (dec > 0 && vh_chance(r, 1, 3)) {
+				/* both directions dry at once, this one several ticks in debt, the other recovering after one refill
+				 * (added after seeded defect C22-2 was missed in the quick tier) */
+				int o = 1 - d;
+				int64_t olvl = o ? bufferevent_get_write_limit(s->bev) : bufferevent_get_read_limit(s->bev), odec;
+				if (olvl > 0) {
+					odec = olvl + (int64_t)vh_below(r, 2);
+					if (o) bufferevent_decrement_write_limit(s->bev, odec); else bufferevent_decrement_read_limit(s->bev, odec);
+					s->ref.level[o] -= odec;
+					if (s->ref.level[o] <= 0) s->other_dry[1 - o] = 1;
+					desc("dec%d%c(%lld);", s->id, o ? 'w' : 'r', (long long)odec); hmix(200 + s->id * 2 + o, (uint64_t)odec);
+					vh_stat("manual_decrements"); vh_stat("both_directions_dried_manually");
+				}
+			}
 		}
 		break;
 	case 2: /* manual consumption from the group bucket */
